@@ -68,6 +68,17 @@ def there_follows(ctx):
             for k in ("true-after-all-equal", "false-on-mismatch", "compares-same-index"):
                 _rec(d, k, good, "the look-ahead is `all` over the characters of s, but its predicate is not pattern[idx+i] == s[i]; found %s" % sorted(rs), loc)
             continue
+        mz = re.match(r"^Iterator::all\(Iterator::zip\((.*), (.*)\), closure (.*)\[\]\)$", strip_ver(r))
+        if mz and len(gs0) == 1:
+            # `pattern[idx..idx + n].iter().zip(s).all(|(a, b)| a == b)`: the two sequences are compared position by position
+            sl = "a1.pattern[Range::Range{start: a1.idx, end: add(a1.idx, len(%s))}]" % CH
+            pair = {mz.group(1), mz.group(2)} == {sl, CH}
+            cb = ctx.body(RC + "there_follows::{closure#0}")
+            rs = {strip_ver(render(q.ret)) for q in ctx.walk(cb).paths} if cb is not None else set()
+            good = pair and rs in ({"eq(a2.0, a2.1)"}, {"eq(a2.1, a2.0)"})
+            for k in ("true-after-all-equal", "false-on-mismatch", "compares-same-index"):
+                _rec(d, k, good, "the look-ahead zips %s with %s under the predicate %s; expected pattern[idx..idx+|s|] against s under equality" % (mz.group(1)[:60], mz.group(2)[:40], sorted(rs)), loc)
+            continue
         cmps = [g for g in gs0 if re.match(r"^!?eq\(", g) and "a1.pattern[add(a1.idx, " in g]
         if r == "true":
             _rec(d, "true-after-all-equal", gs0[-1].endswith("=None") and all(not g.startswith("!") for g in cmps), "true may be answered only after every character compared equal (iterator exhausted); guards %s" % gs0[-2:], loc)
@@ -529,6 +540,30 @@ def repeat_optimize(ctx):
             d[nm + "|missing"] = [False, nm + "::optimize missing", None]
             continue
         rs = {_sh(strip_ver(render(p.ret))) for p in ctx.walk(b).paths}
+        # the value may be built through the type's constructor: read it through the constructor's own (trivial) body
+        if len(rs) == 1:
+            r0 = next(iter(rs))
+            mc = re.match(r"^(.*)%s::new\((.*)\)(\)*)$" % re.escape(nm), r0)
+            cb = ctx.body(ty + "::new")
+            if mc and cb is not None:
+                crs = {_sh(strip_ver(render(p.ret))) for p in ctx.walk(cb).paths}
+                if len(crs) == 1:
+                    # split the top-level arguments
+                    args, depth, cur = [], 0, ""
+                    for chx in mc.group(2):
+                        if chx in "([{":
+                            depth += 1
+                        elif chx in ")]}":
+                            depth -= 1
+                        if chx == "," and depth == 0:
+                            args.append(cur.strip())
+                            cur = ""
+                        else:
+                            cur += chx
+                    args.append(cur.strip())
+                    body_ = next(iter(crs))
+                    body_ = re.sub(r"\ba(\d+)\b", lambda m_: args[int(m_.group(1)) - 1] if 1 <= int(m_.group(1)) <= len(args) else m_.group(0), body_)
+                    rs = {mc.group(1) + body_ + mc.group(3)}
         _rec(d, nm + "|rebuilt", len(rs) == 1 and all(x in next(iter(rs)) for x in fields), "%s::optimize must rebuild itself with the same fields around the optimised child; found %s" % (nm, sorted(rs)[0][:140]), b.loc())
     for ty in ("op_atom::Atom", "op_bol::Bol", "op_eol::Eol", "op_nothing::Nothing", "op_end_program::EndProgram", "op_back_reference::BackReference", "op_character_class::CharClass"):
         b = body(ty)
